@@ -35,7 +35,7 @@ package internal
 //@   modifies key[*]
 //@   ensures [C10:source-wiped] forall i int :: 0 <= i && i < len(key) ==> key[i] == 0
 //@   ensures (err == nil) == (result != nil)
-//@   ensures [C02:key-carries-row-stamp] err == nil ==> fresh(result) && result.created == created && result.secret != nil && live(result.secret) && fresh(result.secret)
+//@   ensures [C02:key-carries-row-stamp] err == nil ==> fresh(result) && result.created == created && result.secret != nil && live(result.secret) && fresh(result.secret) && valid(result.secret)
 //@   modifies live
 //@   ensures [C09:only-the-key-s-secret-is-new] forall s securememory.Secret :: live(s) && !old(live(s)) ==> err == nil && s == result.secret
 //@   ensures [C09:nothing-released] forall s securememory.Secret :: old(live(s)) ==> live(s)
@@ -54,7 +54,7 @@ package internal
 //@   requires factory != nil
 //@   modifies live
 //@   ensures (err == nil) == (result != nil)
-//@   ensures err == nil ==> fresh(result) && result.created == created && result.secret != nil && live(result.secret) && fresh(result.secret)
+//@   ensures err == nil ==> fresh(result) && result.created == created && result.secret != nil && live(result.secret) && fresh(result.secret) && valid(result.secret)
 //@   ensures [C09:only-the-key-s-secret-is-new] forall s securememory.Secret :: live(s) && !old(live(s)) ==> err == nil && s == result.secret
 //@   ensures [C09:nothing-released] forall s securememory.Secret :: old(live(s)) ==> live(s)
 
